@@ -212,8 +212,13 @@ def resolve(qualname):
 def run_case(qualname, recipes, caller=None):
     """Build the arguments, run the real function, evaluate the contract.  Returns a report dict."""
     c = contracts()[qualname]
-    args = {k: build(v) for k, v in recipes.items()}
-    spec_args = {k: specref.exact(build(v)) for k, v in recipes.items()}
+    plain = {k: v for k, v in recipes.items() if v.get("t") != "alias"}
+    args = {k: build(v) for k, v in plain.items()}
+    spec_args = {k: specref.exact(build(v)) for k, v in plain.items()}
+    for k, v in recipes.items():
+        if v.get("t") == "alias":           # the very same object passed for two parameters
+            args[k] = args[v["of"]]
+            spec_args[k] = spec_args[v["of"]]
     ns = namespace()
     ns.update(spec_args)
     rep = {"qualname": qualname, "violations": [], "in_domain": True, "outcome": None}
@@ -235,6 +240,7 @@ def run_case(qualname, recipes, caller=None):
             before[k] = copy.deepcopy(v)
         except Exception:
             pass
+    mod_before = _module_state()
     try:
         if call is not None:
             result = call(args)
@@ -245,6 +251,15 @@ def run_case(qualname, recipes, caller=None):
         if isinstance(e, (KeyboardInterrupt, SystemExit)):
             raise
         outcome = ("raise", e)
+    for name, (b, obj) in mod_before.items():
+        if name in c.may_modify:
+            continue
+        try:
+            cur = _module_state_value(name)
+            if cur is not obj or not _unchanged(b, cur):
+                rep["violations"].append(f"frame[module state {name}] (changed by the call)")
+        except Exception:
+            pass
     # frame: arguments are left as they were (unless the contract says `modifies`)
     for k, b in before.items():
         if k in c.may_modify or k == "self":
@@ -295,6 +310,36 @@ def run_case(qualname, recipes, caller=None):
         except Exception as e:
             rep["violations"].append(f"{name} (contract evaluation raised {type(e).__name__}: {e})")
     return rep
+
+
+_STATE_MODULES = ["pyrepseq.nn", "pyrepseq.distance", "pyrepseq.stats", "pyrepseq.io", "pyrepseq.util", "pyrepseq.entropy",
+                  "pyrepseq.clustering", "pyrepseq.metric.levenshtein", "pyrepseq.metric.tcr_metric.tcr_levenshtein"]
+
+
+def _module_state():
+    """snapshot of the mutable module-level objects (dict / list / set) of the package and of default-argument objects"""
+    import copy
+    out = {}
+    for mn in _STATE_MODULES:
+        try:
+            m = importlib.import_module(mn)
+        except Exception:
+            continue
+        for k, v in vars(m).items():
+            if isinstance(v, (dict, list, set)) and not k.startswith("__"):
+                try:
+                    out[f"{mn.split('.')[-1]}.{k}"] = (copy.deepcopy(v), v)
+                except Exception:
+                    pass
+    return out
+
+
+def _module_state_value(name):
+    mod, k = name.split(".", 1)
+    for mn in _STATE_MODULES:
+        if mn.split(".")[-1] == mod:
+            return getattr(importlib.import_module(mn), k)
+    raise KeyError(name)
 
 
 def _unchanged(a, b):
